@@ -39,7 +39,21 @@ func replayOther(c *ctx, v Violation) {
 	}
 }
 
-func replayContainer(c *ctx, v Violation) {}
+func replayContainer(c *ctx, v Violation) {
+	var cc CCase
+	if err := json.Unmarshal(v.Case, &cc); err != nil || cc.Prop == "" {
+		c.rep.Note("cannot replay this case")
+		return
+	}
+	switch cc.Prop {
+	case "C06":
+		checkC06Reset(c.rep, c.pool, &cc)
+	case "C07":
+		checkC07(c.rep, c.pool, &cc)
+	case "C08":
+		checkC08(c.rep, c.pool, &cc)
+	}
+}
 
 // checkHistoryAPI is checkHistory for flate, and the container-aware variant for gzip/zlib
 func checkHistoryAPI(rep *Report, pool *DriverPool, c *WCase) {
